@@ -27,6 +27,8 @@ theorem reduceLHS_frame (kind : Nat) (root : Addr) (name : String) (idx : Int) (
   pres_auto
   exact setProperty_frame _ _ _
 
+/-! ## list and association-list facts -/
+
 theorem mem_of_mem_set {α} {l : List α} {k : Nat} {v x : α} (h : x ∈ l.set k v) : x ∈ l ∨ x = v := by
   induction l generalizing k with
   | nil => simp at h
@@ -41,46 +43,35 @@ theorem mem_of_mem_set {α} {l : List α} {k : Nat} {v x : α} (h : x ∈ l.set 
         · exact .inl (by simp [h])
         · exact .inr h
 
-/-- `c#i = v` on a list cell below `b`, storing a value separated from `a`, is a mutation through `b` -/
-theorem element_store_mutSeq (a b root : Addr) (nm : String) (idx : Int) (v : Addr) (s s' : VM ν)
-    (h : reduceLHS (1, root, nm, idx) v s = (.ok (), s'))
-    (hr : Reach s.heap b root) (hs : Sep s.heap a b) (hv : Valid s.heap v ∧ Disj s.heap a v) :
-    MutSeq a b s.heap s'.heap := by
-  rcases reduceLHS_arr_spec root nm idx v s s' h with ⟨items, hc, _, rfl⟩
-  refine .write hr ⟨_, hc, rfl⟩ (fun x hx => ?_) (.done _)
-  rcases mem_of_mem_set hx with hx | rfl
-  · exact sep_child_of_reach hs (hr.trans (Reach.child hc hx))
-  · exact hv
+theorem mem_set_set {items : List Addr} {i j : Nat} {x0 x1 y : Addr} (h0 : x0 ∈ items) (h1 : x1 ∈ items)
+    (hy : y ∈ (items.set i x1).set j x0) : y ∈ items := by
+  rcases mem_of_mem_set hy with hy | rfl
+  · rcases mem_of_mem_set hy with hy | rfl
+    · exact hy
+    · exact h1
+  · exact h0
 
-theorem validateOne_any {x : Addr} {c : Cell ν} {s : VM ν} (hx : s.heap[x]? = some c) :
-    validateOne x "any" s = (.ok (), s) := by
-  unfold validateOne
-  simp only [bind, getCell, hx]
-  cases c <;> rfl
+theorem mem_of_mem_dropLast' {α} {l : List α} {y : α} (h : y ∈ l.dropLast) : y ∈ l := by
+  rw [List.dropLast_eq_take] at h
+  exact List.mem_of_mem_take h
 
-/-- `以 r（后增：x）` on a list cell below `b` is a mutation through `b`: allocations, then one write to `r`'s own cell
-that appends a fresh duplicate of `x` -/
-theorem push_back_mutSeq (n : Nat) (a b r x : Addr) (items : List Addr) (s s' : VM ν) (res : Addr) (t : Tree ν)
-    (h : builtinMethod n r "后增" [x] s = (.ok res, s'))
-    (hc : s.heap[r]? = some (.arr items)) (ht : content n s.heap x = some t)
-    (hr : Reach s.heap b r) (hs : Sep s.heap a b) :
-    MutSeq a b s.heap s'.heap := by
-  rcases content_some_inv ht with ⟨_, cx, _, _, hx, _, _, _⟩
-  rcases dup_spec n x s t ht with ⟨x', s1, hd, hp⟩
-  have hv : validateExact [x] ["any"] s = (.ok (), s) := by
-    simp [validateExact, bind, validateOne_any hx, pure]
-  unfold builtinMethod at h
-  simp only [bind, getCell, hc, hv, hd] at h
-  rcases bind_ok_inv _ _ _ _ _ h with ⟨u, s2, hset, h2⟩
-  rcases setCell_ok_inv hset with ⟨_, rfl⟩
-  rcases pure_ok_inv h2 with ⟨_, rfl⟩
-  have hs1 := hs.grow hp.ext
-  have hr1 : Reach s1.heap b r := (reach_ext hp.ext hs.vb).2 hr
-  refine .grow hp.ext (.write hr1 ⟨_, hp.ext.get hc, rfl⟩ (fun y hy => ?_) (.done _))
-  simp only [Cell.children, List.mem_append, List.mem_singleton] at hy
-  rcases hy with hy | rfl
-  · exact sep_child_of_reach hs1 (hr1.trans (Reach.child (hp.ext.get hc) hy))
-  · exact sep_child_of_fresh hp.ext hs.va hp.valid hp.fresh
+theorem mem_insertArrayValue {items items' : List Addr} {idx : Int} {x y : Addr}
+    (h : insertArrayValue items idx x = .ok items') (hy : y ∈ items') : y ∈ items ∨ y = x := by
+  unfold insertArrayValue at h
+  by_cases h1 : idx ≥ (items.length : Int)
+  · rw [if_pos h1] at h; injection h with h; subst h; simpa using hy
+  · rw [if_neg h1] at h
+    simp only at h
+    by_cases h2 : (if idx < 0 then (items.length : Int) + idx else idx) < 0
+    · rw [if_pos h2] at h; cases h
+    · rw [if_neg h2] at h
+      injection h with h; subst h
+      simp only [List.mem_append, List.mem_singleton] at hy
+      rcases hy with (hy | hy) | hy
+      · exact .inl (List.mem_of_mem_take hy)
+      · exact .inr hy
+      · exact .inl (List.mem_of_mem_drop hy)
+
 theorem snd_mem_assocSet {k : String} {v x : Addr} : ∀ {l : List (String × Addr)}, x ∈ (assocSet k v l).map Prod.snd →
     x ∈ l.map Prod.snd ∨ x = v := by
   intro l
@@ -113,148 +104,6 @@ theorem snd_mem_hmAppend {vals : List (String × Addr)} {order : List String} {k
     · exact .inl (by simp; exact h)
     · exact .inr h
 
-/-- `c#{k} = v` on a dictionary cell below `b`, storing a value separated from `a`, is a mutation through `b` -/
-theorem key_store_mutSeq (a b root : Addr) (key : String) (idx : Int) (v : Addr) (s s' : VM ν)
-    (h : reduceLHS (2, root, key, idx) v s = (.ok (), s'))
-    (hr : Reach s.heap b root) (hs : Sep s.heap a b) (hv : Valid s.heap v ∧ Disj s.heap a v) :
-    MutSeq a b s.heap s'.heap := by
-  rcases reduceLHS_hm_spec root key idx v s s' h with ⟨vals, order, hc, rfl⟩
-  refine .write hr ⟨_, hc, rfl⟩ (fun x hx => ?_) (.done _)
-  rcases snd_mem_hmAppend hx with hx | rfl
-  · exact sep_child_of_reach hs (hr.trans (Reach.child hc hx))
-  · exact hv
-
-theorem mem_of_mem_dropLast' {α} {l : List α} {y : α} (h : y ∈ l.dropLast) : y ∈ l := by
-  rw [List.dropLast_eq_take] at h
-  exact List.mem_of_mem_take h
-
-/-- a write that keeps a subset of the cell's own links is a mutation through any `b` above the cell -/
-theorem shrink_write_mutSeq (a b r : Addr) (c c' : Cell ν) (h : Array (Cell ν)) (hc : h[r]? = some c)
-    (hm : c.isMutable = true) (hr : Reach h b r) (hs : Sep h a b) (hsub : ∀ x ∈ c'.children, x ∈ c.children) :
-    MutSeq a b h (h.set! r c') :=
-  .write hr ⟨c, hc, hm⟩ (fun x hx => sep_child_of_reach hs (hr.trans (Reach.child hc (hsub x hx)))) (.done _)
-
-theorem MutSeq.trans {a b : Addr} {h1 h2 h3 : Array (Cell ν)} (m1 : MutSeq a b h1 h2) (m2 : MutSeq a b h2 h3) :
-    MutSeq a b h1 h3 := by
-  induction m1 with
-  | done => exact m2
-  | grow e _ ih => exact .grow e (ih m2)
-  | write hr hm hch _ ih => exact .write hr hm hch (ih m2)
-
-theorem MutSeq.push {a b : Addr} (h : Array (Cell ν)) (c : Cell ν) : MutSeq a b h (h.push c) :=
-  .grow (Ext.push h c) (.done _)
-
-/-- 左移 (pop front) -/
-theorem pop_front_mutSeq (n : Nat) (a b r : Addr) (items : List Addr) (s s' : VM ν) (res : Res Addr)
-    (h : builtinMethod n r "左移" [] s = (res, s')) (hc : s.heap[r]? = some (.arr items))
-    (hr : Reach s.heap b r) (hs : Sep s.heap a b) : MutSeq a b s.heap s'.heap := by
-  have hlt := lt_size_of_getElem? hc
-  unfold builtinMethod at h
-  simp only [bind, getCell, hc] at h
-  cases items with
-  | nil =>
-    simp [setCell, hlt, newNull, alloc] at h
-    rw [← h.2]
-    exact (shrink_write_mutSeq a b r _ (.arr []) s.heap hc rfl hr hs (by simp [Cell.children])).trans (MutSeq.push _ _)
-  | cons x rest =>
-    simp [setCell, hlt, pure] at h
-    rw [← h.2]
-    exact shrink_write_mutSeq a b r _ (.arr rest) s.heap hc rfl hr hs (by simp [Cell.children]; intro y hy; exact .inr hy)
-
-/-- 右移 (pop back) -/
-theorem pop_back_mutSeq (n : Nat) (a b r : Addr) (items : List Addr) (s s' : VM ν) (res : Res Addr)
-    (h : builtinMethod n r "右移" [] s = (res, s')) (hc : s.heap[r]? = some (.arr items))
-    (hr : Reach s.heap b r) (hs : Sep s.heap a b) : MutSeq a b s.heap s'.heap := by
-  have hlt := lt_size_of_getElem? hc
-  unfold builtinMethod at h
-  simp only [bind, getCell, hc] at h
-  cases hl : items.getLast? with
-  | none =>
-    simp [hl, setCell, hlt, newNull, alloc] at h
-    rw [← h.2]
-    exact (shrink_write_mutSeq a b r _ (.arr []) s.heap hc rfl hr hs (by simp [Cell.children])).trans (MutSeq.push _ _)
-  | some x =>
-    simp [hl, setCell, hlt, pure] at h
-    rw [← h.2]
-    exact shrink_write_mutSeq a b r _ (.arr items.dropLast) s.heap hc rfl hr hs
-      (by simp only [Cell.children]; intro y hy; exact mem_of_mem_dropLast' hy)
-
-
-theorem validateOne_string {x : Addr} {k : String} {s : VM ν} (hx : s.heap[x]? = some (.str k)) :
-    validateOne x "string" s = (.ok (), s) := by
-  unfold validateOne
-  simp only [bind, getCell, hx]
-  rfl
-
-theorem validateOne_number {x : Addr} {y : ν} {s : VM ν} (hx : s.heap[x]? = some (.num y)) :
-    validateOne x "number" s = (.ok (), s) := by
-  unfold validateOne
-  simp only [bind, getCell, hx]
-  rfl
-
-/-- 前增 (push front) -/
-theorem push_front_mutSeq (n : Nat) (a b r x : Addr) (items : List Addr) (s s' : VM ν) (res : Addr) (t : Tree ν)
-    (h : builtinMethod n r "前增" [x] s = (.ok res, s'))
-    (hc : s.heap[r]? = some (.arr items)) (ht : content n s.heap x = some t)
-    (hr : Reach s.heap b r) (hs : Sep s.heap a b) :
-    MutSeq a b s.heap s'.heap := by
-  rcases content_some_inv ht with ⟨_, cx, _, _, hx, _, _, _⟩
-  rcases dup_spec n x s t ht with ⟨x', s1, hd, hp⟩
-  have hv : validateExact [x] ["any"] s = (.ok (), s) := by
-    simp [validateExact, bind, validateOne_any hx, pure]
-  unfold builtinMethod at h
-  simp only [bind, getCell, hc, hv, hd] at h
-  rcases bind_ok_inv _ _ _ _ _ h with ⟨u, s2, hset, h2⟩
-  rcases setCell_ok_inv hset with ⟨_, rfl⟩
-  rcases pure_ok_inv h2 with ⟨_, rfl⟩
-  have hs1 := hs.grow hp.ext
-  have hr1 : Reach s1.heap b r := (reach_ext hp.ext hs.vb).2 hr
-  refine .grow hp.ext (.write hr1 ⟨_, hp.ext.get hc, rfl⟩ (fun y hy => ?_) (.done _))
-  simp only [Cell.children, List.mem_cons] at hy
-  rcases hy with rfl | hy
-  · exact sep_child_of_fresh hp.ext hs.va hp.valid hp.fresh
-  · exact sep_child_of_reach hs1 (hr1.trans (Reach.child (hp.ext.get hc) hy))
-
-/-- 写入 (dictionary put) -/
-theorem dict_put_mutSeq (n : Nat) (a b r k x : Addr) (key : String) (vals : List (String × Addr)) (order : List String)
-    (s s' : VM ν) (res : Addr) (t : Tree ν)
-    (h : builtinMethod n r "写入" [k, x] s = (.ok res, s'))
-    (hc : s.heap[r]? = some (.hm vals order)) (hk : s.heap[k]? = some (.str key)) (ht : content n s.heap x = some t)
-    (hr : Reach s.heap b r) (hs : Sep s.heap a b) :
-    MutSeq a b s.heap s'.heap := by
-  rcases content_some_inv ht with ⟨_, cx, _, _, hx, _, _, _⟩
-  rcases dup_spec n x s t ht with ⟨x', s1, hd, hp⟩
-  have hv : validateExact [k, x] ["string", "any"] s = (.ok (), s) := by
-    simp [validateExact, bind, validateOne_any hx, validateOne_string hk, pure]
-  unfold builtinMethod at h
-  simp only [bind, getCell, hc, hk, hv, hd] at h
-  rcases bind_ok_inv _ _ _ _ _ h with ⟨u, s2, hset, h2⟩
-  rcases setCell_ok_inv hset with ⟨_, rfl⟩
-  rcases pure_ok_inv h2 with ⟨_, rfl⟩
-  have hs1 := hs.grow hp.ext
-  have hr1 : Reach s1.heap b r := (reach_ext hp.ext hs.vb).2 hr
-  refine .grow hp.ext (.write hr1 ⟨_, hp.ext.get hc, rfl⟩ (fun y hy => ?_) (.done _))
-  rcases snd_mem_hmAppend hy with hy | rfl
-  · exact sep_child_of_reach hs1 (hr1.trans (Reach.child (hp.ext.get hc) hy))
-  · exact sep_child_of_fresh hp.ext hs.va hp.valid hp.fresh
-
-/-- 自增 / 自减 (in-place arithmetic on a number cell) -/
-theorem incr_mutSeq (n : Nat) (a b r v : Addr) (name : String) (hname : name = "自增" ∨ name = "自减") (x y : ν)
-    (s s' : VM ν) (res : Res Addr)
-    (h : builtinMethod n r name [v] s = (res, s'))
-    (hc : s.heap[r]? = some (.num x)) (hv : s.heap[v]? = some (.num y))
-    (hr : Reach s.heap b r) (hs : Sep s.heap a b) :
-    MutSeq a b s.heap s'.heap := by
-  have hlt := lt_size_of_getElem? hc
-  have hval : validateExact [v] ["number"] s = (.ok (), s) := by
-    simp [validateExact, bind, validateOne_number hv, pure]
-  unfold builtinMethod at h
-  rcases hname with rfl | rfl <;>
-  · simp only [bind, getCell, hc, hval, hv] at h
-    simp [setCell, hlt, pure] at h
-    rw [← h.2]
-    exact shrink_write_mutSeq a b r _ (.num _) s.heap hc rfl hr hs (by simp [Cell.children])
-
 theorem snd_mem_assocErase {k : String} {x : Addr} : ∀ {l : List (String × Addr)}, x ∈ (assocErase k l).map Prod.snd →
     x ∈ l.map Prod.snd := by
   intro l
@@ -272,96 +121,150 @@ theorem snd_mem_assocErase {k : String} {x : Addr} : ∀ {l : List (String × Ad
       · have := ih (by simpa using h)
         simp at this ⊢; exact .inr this
 
-/-- 移除 (dictionary remove) -/
-theorem dict_remove_mutSeq (n : Nat) (a b r k : Addr) (key : String) (vals : List (String × Addr)) (order : List String)
-    (s s' : VM ν) (res : Res Addr)
-    (h : builtinMethod n r "移除" [k] s = (res, s'))
-    (hc : s.heap[r]? = some (.hm vals order)) (hk : s.heap[k]? = some (.str key))
-    (hr : Reach s.heap b r) (hs : Sep s.heap a b) :
-    MutSeq a b s.heap s'.heap := by
-  have hlt := lt_size_of_getElem? hc
-  have hv : validateExact [k] ["string"] s = (.ok (), s) := by
-    simp [validateExact, bind, validateOne_string hk, pure]
-  unfold builtinMethod at h
-  simp only [bind, getCell, hc, hk, hv] at h
-  cases hl : lookup key vals with
-  | none =>
-    simp [hl, newNull, alloc] at h
-    rw [← h.2]
-    exact MutSeq.push _ _
-  | some v =>
-    simp [hl, setCell, hlt, pure] at h
-    rw [← h.2]
-    exact shrink_write_mutSeq a b r _ (.hm (assocErase key vals) (order.erase key)) s.heap hc rfl hr hs
-      (fun x hx => snd_mem_assocErase hx)
+/-! ### the HashMap invariant is kept by AppendKVPair and by removal -/
 
-/-- reading an element / a value below `root` answers a cell that `root` links to, and changes nothing -/
-theorem index_read_reaches (n : Nat) (kind : Nat) (hk : kind = 1 ∨ kind = 2) (root : Addr) (nm : String) (idx : Int)
-    (s s' : VM ν) (v : Addr) (h : reduceRHS n (kind, root, nm, idx) s = (.ok v, s')) :
-    s' = s ∧ ∃ c, s.heap[root]? = some c ∧ v ∈ c.children := by
-  rcases hk with rfl | rfl
-  · simp only [reduceRHS] at h
-    rw [if_pos (by rfl)] at h
-    rcases bind_ok_inv _ _ _ _ _ h with ⟨c, s1, hc, h1⟩
-    rcases getCell_ok_inv hc with ⟨hc', e⟩
-    rw [e] at h1
-    cases c <;> simp only [rtErr, throwE] at h1 <;> try (injection h1 with h1 _; cases h1)
-    rename_i items
-    by_cases hb : (idx - 1 < 0 ∨ idx - 1 ≥ items.length)
-    · rw [if_pos hb] at h1; injection h1 with h1 _; cases h1
-    · rw [if_neg hb] at h1
-      cases hi : items[(idx - 1).toNat]? with
-      | none => rw [hi] at h1; simp [goPanic] at h1
-      | some x =>
-        rw [hi] at h1
-        rcases pure_ok_inv h1 with ⟨rfl, rfl⟩
-        exact ⟨rfl, _, hc', by simp only [Cell.children]; exact List.mem_of_getElem? hi⟩
-  · simp only [reduceRHS] at h
-    rw [if_neg (by decide), if_pos (by rfl)] at h
-    rcases bind_ok_inv _ _ _ _ _ h with ⟨c, s1, hc, h1⟩
-    rcases getCell_ok_inv hc with ⟨hc', e⟩
-    rw [e] at h1
-    cases c <;> simp only [rtErr, throwE] at h1 <;> try (injection h1 with h1 _; cases h1)
-    rename_i vals order
-    cases hl : lookup nm vals with
-    | none => rw [hl] at h1; simp [throwE] at h1
-    | some x =>
-      rw [hl] at h1
-      rcases pure_ok_inv h1 with ⟨rfl, rfl⟩
-      refine ⟨rfl, _, hc', ?_⟩
-      simp only [Cell.children]
-      clear hc' h hc e
-      induction vals with
-      | nil => simp [lookup] at hl
-      | cons p ps ih =>
-        rcases p with ⟨k', v'⟩
-        by_cases hk : nm = k'
-        · simp [lookup, hk] at hl; simp [hl]
-        · simp [lookup, hk] at hl; simp; exact .inr (by simpa using ih hl)
-theorem mem_insertArrayValue {items items' : List Addr} {idx : Int} {x y : Addr}
-    (h : insertArrayValue items idx x = .ok items') (hy : y ∈ items') : y ∈ items ∨ y = x := by
-  unfold insertArrayValue at h
-  by_cases h1 : idx ≥ (items.length : Int)
-  · rw [if_pos h1] at h; injection h with h; subst h; simpa using hy
-  · rw [if_neg h1] at h
-    simp only at h
-    by_cases h2 : (if idx < 0 then (items.length : Int) + idx else idx) < 0
-    · rw [if_pos h2] at h; cases h
-    · rw [if_neg h2] at h
-      injection h with h; subst h
-      simp only [List.mem_append, List.mem_singleton] at hy
-      rcases hy with (hy | hy) | hy
-      · exact .inl (List.mem_of_mem_take hy)
-      · exact .inr hy
-      · exact .inl (List.mem_of_mem_drop hy)
+theorem not_mem_of_lookup_none {β} (k : String) : ∀ (l : List (String × β)), lookup k l = none → k ∉ l.map Prod.fst := by
+  intro l
+  induction l with
+  | nil => intro _; simp
+  | cons p ps ih =>
+    intro h
+    rcases p with ⟨k', v'⟩
+    by_cases hk : k = k'
+    · simp [lookup, hk] at h
+    · simp [lookup, hk] at h
+      simp [hk, ih h]
+
+theorem assocSet_keys {β} (k : String) (v : β) : ∀ (l : List (String × β)), k ∈ l.map Prod.fst →
+    (assocSet k v l).map Prod.fst = l.map Prod.fst := by
+  intro l
+  induction l with
+  | nil => intro h; simp at h
+  | cons p ps ih =>
+    intro h
+    rcases p with ⟨k', v'⟩
+    by_cases hk : k = k'
+    · simp [assocSet, hk]
+    · have : k ∈ ps.map Prod.fst := by simpa [hk] using h
+      simp [assocSet, hk, ih this]
+
+theorem hmAppend_wf {vals : List (String × Addr)} {order : List String} (k : String) (v : Addr) (h : dictWF vals order) :
+    dictWF (hmAppend vals order k v).1 (hmAppend vals order k v).2 := by
+  rcases h with ⟨h1, h2⟩
+  unfold hmAppend
+  cases hl : lookup k vals with
+  | some _ =>
+    simp only
+    refine ⟨?_, h2⟩
+    rw [assocSet_keys k v vals (Classical.byContradiction fun hn => by
+        rw [lookup_none_of_not_mem k vals hn] at hl; cases hl), h1]
+  | none =>
+    simp only
+    have hk : k ∉ order := by rw [← h1]; exact not_mem_of_lookup_none k vals hl
+    refine ⟨by simp [h1], ?_⟩
+    rw [List.nodup_append]
+    exact ⟨h2, by simp, fun a ha b hb => by simp at hb; subst hb; rintro rfl; exact hk ha⟩
+
+theorem assocErase_keys {β} (k : String) : ∀ (l : List (String × β)), (assocErase k l).map Prod.fst = (l.map Prod.fst).erase k := by
+  intro l
+  induction l with
+  | nil => rfl
+  | cons p ps ih =>
+    rcases p with ⟨k', v'⟩
+    by_cases hk : k = k'
+    · simp [assocErase, hk]
+    · have : ¬ (k' == k) = true := by simpa using Ne.symm hk
+      simp [assocErase, hk, this, ih]
+
+theorem erase_wf {vals : List (String × Addr)} {order : List String} (k : String) (h : dictWF vals order) :
+    dictWF (assocErase k vals) (order.erase k) :=
+  ⟨by rw [assocErase_keys, h.1], h.2.erase k⟩
+
+theorem hm_wf_of {vals vals' : List (String × Addr)} {order order' : List String}
+    (h : dictWF vals order → dictWF vals' order') : (Cell.hm vals order : Cell ν).wf = true → (Cell.hm vals' order' : Cell ν).wf = true := by
+  intro hw
+  have : dictWF vals order := by simpa [Cell.wf] using hw
+  simpa [Cell.wf] using h this
+
+/-! ## every mutating built-in is one store into the receiver's own cell -/
+
+theorem validateOne_any {x : Addr} {c : Cell ν} {s : VM ν} (hx : s.heap[x]? = some c) :
+    validateOne x "any" s = (.ok (), s) := by
+  unfold validateOne
+  simp only [bind, getCell, hx]
+  cases c <;> rfl
+
+theorem validateOne_string {x : Addr} {k : String} {s : VM ν} (hx : s.heap[x]? = some (.str k)) :
+    validateOne x "string" s = (.ok (), s) := by
+  unfold validateOne
+  simp only [bind, getCell, hx]
+  rfl
+
+theorem validateOne_number {x : Addr} {y : ν} {s : VM ν} (hx : s.heap[x]? = some (.num y)) :
+    validateOne x "number" s = (.ok (), s) := by
+  unfold validateOne
+  simp only [bind, getCell, hx]
+  rfl
+
+theorem validateOne_array {x : Addr} {xs : List Addr} {s : VM ν} (hx : s.heap[x]? = some (.arr xs)) :
+    validateOne x "array" s = (.ok (), s) := by
+  unfold validateOne
+  simp only [bind, getCell, hx]
+  rfl
+
+/-- a write that keeps a subset of the cell's own links -/
+theorem shrink_storeStep (r : Addr) (c c' : Cell ν) (h : Array (Cell ν)) (hc : h[r]? = some c) (hm : c.isMutable = true)
+    (hw : c.wf = true → c'.wf = true) (hsub : ∀ x ∈ c'.children, x ∈ c.children) : StoreStep r h (h.set! r c') :=
+  .store (Ext.refl _) hc hm hw (fun x hx => .inl (hsub x hx)) (Ext.refl _)
+
+theorem shrink_push_storeStep (r : Addr) (c c' d : Cell ν) (h : Array (Cell ν)) (hc : h[r]? = some c) (hm : c.isMutable = true)
+    (hw : c.wf = true → c'.wf = true) (hsub : ∀ x ∈ c'.children, x ∈ c.children) : StoreStep r h ((h.set! r c').push d) :=
+  .store (Ext.refl _) hc hm hw (fun x hx => .inl (hsub x hx)) (Ext.push _ _)
+
+/-- 后增 (push back) -/
+theorem push_back_storeStep (n : Nat) (r x : Addr) (items : List Addr) (s s' : VM ν) (res : Addr) (t : Tree ν)
+    (h : builtinMethod n r "后增" [x] s = (.ok res, s'))
+    (hc : s.heap[r]? = some (.arr items)) (ht : content n s.heap x = some t) : StoreStep r s.heap s'.heap := by
+  rcases content_some_inv ht with ⟨_, cx, _, _, hx, _, _, _⟩
+  rcases dup_spec n x s t ht with ⟨x', s1, hd, hp⟩
+  have hv : validateExact [x] ["any"] s = (.ok (), s) := by
+    simp [validateExact, bind, validateOne_any hx, pure]
+  unfold builtinMethod at h
+  simp only [bind, getCell, hc, hv, hd] at h
+  rcases bind_ok_inv _ _ _ _ _ h with ⟨u, s2, hset, h2⟩
+  rcases setCell_ok_inv hset with ⟨_, rfl⟩
+  rcases pure_ok_inv h2 with ⟨_, rfl⟩
+  refine .store hp.ext hc rfl (fun _ => rfl) (fun y hy => ?_) (Ext.refl _)
+  simp only [Cell.children, List.mem_append, List.mem_singleton] at hy
+  rcases hy with hy | rfl
+  · exact .inl hy
+  · exact .inr ⟨⟨n, t, hp.cont⟩, hp.fresh⟩
+
+/-- 前增 (push front) -/
+theorem push_front_storeStep (n : Nat) (r x : Addr) (items : List Addr) (s s' : VM ν) (res : Addr) (t : Tree ν)
+    (h : builtinMethod n r "前增" [x] s = (.ok res, s'))
+    (hc : s.heap[r]? = some (.arr items)) (ht : content n s.heap x = some t) : StoreStep r s.heap s'.heap := by
+  rcases content_some_inv ht with ⟨_, cx, _, _, hx, _, _, _⟩
+  rcases dup_spec n x s t ht with ⟨x', s1, hd, hp⟩
+  have hv : validateExact [x] ["any"] s = (.ok (), s) := by
+    simp [validateExact, bind, validateOne_any hx, pure]
+  unfold builtinMethod at h
+  simp only [bind, getCell, hc, hv, hd] at h
+  rcases bind_ok_inv _ _ _ _ _ h with ⟨u, s2, hset, h2⟩
+  rcases setCell_ok_inv hset with ⟨_, rfl⟩
+  rcases pure_ok_inv h2 with ⟨_, rfl⟩
+  refine .store hp.ext hc rfl (fun _ => rfl) (fun y hy => ?_) (Ext.refl _)
+  simp only [Cell.children, List.mem_cons] at hy
+  rcases hy with rfl | hy
+  · exact .inr ⟨⟨n, t, hp.cont⟩, hp.fresh⟩
+  · exact .inl hy
 
 /-- 新增 / 添加 (insert at index) -/
-theorem insert_mutSeq (n : Nat) (a b r x p : Addr) (name : String) (hname : name = "新增" ∨ name = "添加") (pv : ν)
+theorem insert_storeStep (n : Nat) (r x p : Addr) (name : String) (hname : name = "新增" ∨ name = "添加") (pv : ν)
     (items : List Addr) (s s' : VM ν) (res : Addr) (t : Tree ν)
     (h : builtinMethod n r name [x, p] s = (.ok res, s'))
-    (hc : s.heap[r]? = some (.arr items)) (hp : s.heap[p]? = some (.num pv)) (ht : content n s.heap x = some t)
-    (hr : Reach s.heap b r) (hs : Sep s.heap a b) :
-    MutSeq a b s.heap s'.heap := by
+    (hc : s.heap[r]? = some (.arr items)) (hp : s.heap[p]? = some (.num pv)) (ht : content n s.heap x = some t) :
+    StoreStep r s.heap s'.heap := by
   rcases content_some_inv ht with ⟨_, cx, _, _, hx, _, _, _⟩
   rcases dup_spec n x s t ht with ⟨x', s1, hd, hpost⟩
   have hv : validateExact [x, p] ["any", "number"] s = (.ok (), s) := by
@@ -379,31 +282,95 @@ theorem insert_mutSeq (n : Nat) (a b r x p : Addr) (name : String) (hname : name
         rcases bind_ok_inv _ _ _ _ _ h with ⟨u, s2, hset, h2⟩
         rcases setCell_ok_inv hset with ⟨_, rfl⟩
         rcases pure_ok_inv h2 with ⟨_, rfl⟩
-        have hs1 := hs.grow hpost.ext
-        have hr1 : Reach s1.heap b r := (reach_ext hpost.ext hs.vb).2 hr
-        refine .grow hpost.ext (.write hr1 ⟨_, hpost.ext.get hc, rfl⟩ (fun y hy => ?_) (.done _))
+        refine .store hpost.ext hc rfl (fun _ => rfl) (fun y hy => ?_) (Ext.refl _)
         rcases mem_insertArrayValue hi hy with hy | rfl
-        · exact sep_child_of_reach hs1 (hr1.trans (Reach.child (hpost.ext.get hc) hy))
-        · exact sep_child_of_fresh hpost.ext hs.va hpost.valid hpost.fresh
+        · exact .inl hy
+        · exact .inr ⟨⟨n, t, hpost.cont⟩, hpost.fresh⟩
       | err e => rw [hi] at h; simp [goPanic] at h
       | panic => rw [hi] at h; simp [goPanic] at h
       | fuel => rw [hi] at h; simp [goPanic] at h
       | unmodelled => rw [hi] at h; simp [goPanic] at h
 
-theorem mem_set_set {items : List Addr} {i j : Nat} {x0 x1 y : Addr} (h0 : x0 ∈ items) (h1 : x1 ∈ items)
-    (hy : y ∈ (items.set i x1).set j x0) : y ∈ items := by
-  rcases mem_of_mem_set hy with hy | rfl
-  · rcases mem_of_mem_set hy with hy | rfl
-    · exact hy
-    · exact h1
-  · exact h0
+/-- 写入 (dictionary put) -/
+theorem dict_put_storeStep (n : Nat) (r k x : Addr) (key : String) (vals : List (String × Addr)) (order : List String)
+    (s s' : VM ν) (res : Addr) (t : Tree ν)
+    (h : builtinMethod n r "写入" [k, x] s = (.ok res, s'))
+    (hc : s.heap[r]? = some (.hm vals order)) (hk : s.heap[k]? = some (.str key)) (ht : content n s.heap x = some t) :
+    StoreStep r s.heap s'.heap := by
+  rcases content_some_inv ht with ⟨_, cx, _, _, hx, _, _, _⟩
+  rcases dup_spec n x s t ht with ⟨x', s1, hd, hp⟩
+  have hv : validateExact [k, x] ["string", "any"] s = (.ok (), s) := by
+    simp [validateExact, bind, validateOne_any hx, validateOne_string hk, pure]
+  unfold builtinMethod at h
+  simp only [bind, getCell, hc, hk, hv, hd] at h
+  rcases bind_ok_inv _ _ _ _ _ h with ⟨u, s2, hset, h2⟩
+  rcases setCell_ok_inv hset with ⟨_, rfl⟩
+  rcases pure_ok_inv h2 with ⟨_, rfl⟩
+  refine .store hp.ext hc rfl (hm_wf_of (hmAppend_wf key x')) (fun y hy => ?_) (Ext.refl _)
+  rcases snd_mem_hmAppend hy with hy | rfl
+  · exact .inl hy
+  · exact .inr ⟨⟨n, t, hp.cont⟩, hp.fresh⟩
+
+/-- 移除 (dictionary remove) -/
+theorem dict_remove_storeStep (n : Nat) (r k : Addr) (key : String) (vals : List (String × Addr)) (order : List String)
+    (s s' : VM ν) (res : Res Addr)
+    (h : builtinMethod n r "移除" [k] s = (res, s'))
+    (hc : s.heap[r]? = some (.hm vals order)) (hk : s.heap[k]? = some (.str key)) : StoreStep r s.heap s'.heap := by
+  have hlt := lt_size_of_getElem? hc
+  have hv : validateExact [k] ["string"] s = (.ok (), s) := by
+    simp [validateExact, bind, validateOne_string hk, pure]
+  unfold builtinMethod at h
+  simp only [bind, getCell, hc, hk, hv] at h
+  cases hl : lookup key vals with
+  | none =>
+    simp [hl, newNull, alloc] at h
+    rw [← h.2]
+    exact .noop (Ext.push _ _)
+  | some v =>
+    simp [hl, setCell, hlt, pure] at h
+    rw [← h.2]
+    exact shrink_storeStep r _ (.hm (assocErase key vals) (order.erase key)) s.heap hc rfl (hm_wf_of (erase_wf key))
+      (fun x hx => snd_mem_assocErase hx)
+
+/-- 左移 (pop front) -/
+theorem pop_front_storeStep (n : Nat) (r : Addr) (items : List Addr) (s s' : VM ν) (res : Res Addr)
+    (h : builtinMethod n r "左移" [] s = (res, s')) (hc : s.heap[r]? = some (.arr items)) : StoreStep r s.heap s'.heap := by
+  have hlt := lt_size_of_getElem? hc
+  unfold builtinMethod at h
+  simp only [bind, getCell, hc] at h
+  cases items with
+  | nil =>
+    simp [setCell, hlt, newNull, alloc] at h
+    rw [← h.2]
+    exact shrink_push_storeStep r _ (.arr []) _ s.heap hc rfl (fun _ => rfl) (by simp [Cell.children])
+  | cons x rest =>
+    simp [setCell, hlt, pure] at h
+    rw [← h.2]
+    exact shrink_storeStep r _ (.arr rest) s.heap hc rfl (fun _ => rfl)
+      (by simp [Cell.children]; intro y hy; exact .inr hy)
+
+/-- 右移 (pop back) -/
+theorem pop_back_storeStep (n : Nat) (r : Addr) (items : List Addr) (s s' : VM ν) (res : Res Addr)
+    (h : builtinMethod n r "右移" [] s = (res, s')) (hc : s.heap[r]? = some (.arr items)) : StoreStep r s.heap s'.heap := by
+  have hlt := lt_size_of_getElem? hc
+  unfold builtinMethod at h
+  simp only [bind, getCell, hc] at h
+  cases hl : items.getLast? with
+  | none =>
+    simp [hl, setCell, hlt, newNull, alloc] at h
+    rw [← h.2]
+    exact shrink_push_storeStep r _ (.arr []) _ s.heap hc rfl (fun _ => rfl) (by simp [Cell.children])
+  | some x =>
+    simp [hl, setCell, hlt, pure] at h
+    rw [← h.2]
+    exact shrink_storeStep r _ (.arr items.dropLast) s.heap hc rfl (fun _ => rfl)
+      (by simp only [Cell.children]; intro y hy; exact mem_of_mem_dropLast' hy)
 
 /-- 交换 (swap two positions) -/
-theorem swap_mutSeq (n : Nat) (a b r p q : Addr) (pv qv : ν) (items : List Addr) (s s' : VM ν) (res : Res Addr)
+theorem swap_storeStep (n : Nat) (r p q : Addr) (pv qv : ν) (items : List Addr) (s s' : VM ν) (res : Res Addr)
     (h : builtinMethod n r "交换" [p, q] s = (res, s'))
-    (hc : s.heap[r]? = some (.arr items)) (hp : s.heap[p]? = some (.num pv)) (hq : s.heap[q]? = some (.num qv))
-    (hr : Reach s.heap b r) (hs : Sep s.heap a b) :
-    MutSeq a b s.heap s'.heap := by
+    (hc : s.heap[r]? = some (.arr items)) (hp : s.heap[p]? = some (.num pv)) (hq : s.heap[q]? = some (.num qv)) :
+    StoreStep r s.heap s'.heap := by
   have hlt := lt_size_of_getElem? hc
   have hv : validateExact [p, q] ["number", "number"] s = (.ok (), s) := by
     simp [validateExact, bind, validateOne_number hp, validateOne_number hq, pure]
@@ -412,17 +379,33 @@ theorem swap_mutSeq (n : Nat) (a b r p q : Addr) (pv qv : ν) (items : List Addr
   generalize NumOps.toInt (NumOps.sub (NumOps.floor pv) (NumOps.ofInt 1)) = c0 at h
   generalize NumOps.toInt (NumOps.sub (NumOps.floor qv) (NumOps.ofInt 1)) = c1 at h
   split at h
-  · simp [rtErr, throwE] at h; rw [← h.2]; exact .done _
+  · simp [rtErr, throwE] at h; rw [← h.2]; exact .noop (Ext.refl _)
   · split at h
-    · simp [rtErr, throwE] at h; rw [← h.2]; exact .done _
+    · simp [rtErr, throwE] at h; rw [← h.2]; exact .noop (Ext.refl _)
     · cases h0 : items[c0.toNat]? with
-      | none => simp [h0, goPanic] at h; rw [← h.2]; exact .done _
+      | none => simp [h0, goPanic] at h; rw [← h.2]; exact .noop (Ext.refl _)
       | some x0 =>
         cases h1 : items[c1.toNat]? with
-        | none => simp [h0, h1, goPanic] at h; rw [← h.2]; exact .done _
+        | none => simp [h0, h1, goPanic] at h; rw [← h.2]; exact .noop (Ext.refl _)
         | some x1 =>
           simp [h0, h1, setCell, hlt, pure] at h
           rw [← h.2]
-          exact shrink_write_mutSeq a b r _ (.arr _) s.heap hc rfl hr hs
+          exact shrink_storeStep r _ (.arr _) s.heap hc rfl (fun _ => rfl)
             (fun y hy => mem_set_set (List.mem_of_getElem? h0) (List.mem_of_getElem? h1) hy)
+
+/-- 自增 / 自减 (in-place arithmetic on a number cell) -/
+theorem incr_storeStep (n : Nat) (r v : Addr) (name : String) (hname : name = "自增" ∨ name = "自减") (x y : ν)
+    (s s' : VM ν) (res : Res Addr)
+    (h : builtinMethod n r name [v] s = (res, s'))
+    (hc : s.heap[r]? = some (.num x)) (hv : s.heap[v]? = some (.num y)) : StoreStep r s.heap s'.heap := by
+  have hlt := lt_size_of_getElem? hc
+  have hval : validateExact [v] ["number"] s = (.ok (), s) := by
+    simp [validateExact, bind, validateOne_number hv, pure]
+  unfold builtinMethod at h
+  rcases hname with rfl | rfl <;>
+  · simp only [bind, getCell, hc, hval, hv] at h
+    simp [setCell, hlt, pure] at h
+    rw [← h.2]
+    exact shrink_storeStep r _ (.num _) s.heap hc rfl (fun _ => rfl) (by simp [Cell.children])
+
 end ZnVerif.Model
